@@ -284,6 +284,68 @@ def signatures() -> Dict[str, List[str]]:
 
 _sigs: Optional[Dict[str, List[str]]] = None
 _nf_cache: Dict[str, str] = {}
+_cur_sources: Dict[str, str] = {}
+_cur_defs: Optional[Dict[str, ast.AST]] = None
+_ref_defs: Optional[Dict[str, ast.AST]] = None
+_MAX_INLINE_STMTS = 12
+
+
+def begin_repo(sources: Dict[str, str]):
+    """Called by the model before it parses the modules of a tree: the current text of every file, for the rare case
+    where recognising a refactored function needs the body of a function of another module."""
+    global _cur_sources, _cur_defs
+    _cur_sources = sources
+    _cur_defs = None
+
+
+def _small(node) -> bool:
+    n = sum(1 for x in ast.walk(node) if isinstance(x, ast.stmt)) - 1
+    return n <= _MAX_INLINE_STMTS and not any(isinstance(x, (ast.Yield, ast.YieldFrom, ast.For, ast.AsyncFor, ast.While, ast.Lambda)) for x in ast.walk(node)) \
+        and not any(isinstance(x, _FUNCS) for b in node.body for x in ast.walk(b))
+
+
+def _module_level_defs(tree) -> Dict[str, ast.AST]:
+    return {s.name: s for s in tree.body if isinstance(s, _FUNCS)}
+
+
+def current_def(name: str):
+    """The module-level function of that name in the current tree, when exactly one module defines it."""
+    global _cur_defs
+    if _cur_defs is None:
+        seen: Dict[str, List[ast.AST]] = {}
+        for rel, src in _cur_sources.items():
+            if not rel.endswith(".py"):
+                continue
+            try:
+                t = ast.parse(src)
+            except SyntaxError:
+                continue
+            drop_local_annotations(t)
+            for k, v in _module_level_defs(t).items():
+                seen.setdefault(k, []).append(v)
+        _cur_defs = {k: v[0] for k, v in seen.items() if len(v) == 1}
+    return _cur_defs.get(name)
+
+
+def reference_def(name: str, rel: Optional[str] = None):
+    """The reference's module-level function of that name: the one of module `rel` if it has one, else the unique one."""
+    global _ref_defs
+    ref = reference()
+    if rel is not None and f"{rel}::{name}" in ref and "src" in ref[f"{rel}::{name}"]:
+        return ast.parse(ref[f"{rel}::{name}"]["src"]).body[0]
+    if _ref_defs is None:
+        seen: Dict[str, List[str]] = {}
+        for k, r in ref.items():
+            q = k.split("::", 1)[1]
+            if "." not in q and "src" in r:
+                seen.setdefault(q, []).append(r["src"])
+        _ref_defs = {k: v[0] for k, v in seen.items() if len(v) == 1}
+    src = _ref_defs.get(name)
+    return ast.parse(src).body[0] if isinstance(src, str) else None
+
+
+def _called_names(node) -> Set[str]:
+    return {c.func.id for c in ast.walk(node) if isinstance(c, ast.Call) and isinstance(c.func, ast.Name)}
 
 
 def _ref_nf(key: str, r: dict) -> str:
@@ -291,7 +353,19 @@ def _ref_nf(key: str, r: dict) -> str:
         from .normal import normal_form as nf
 
         node = ast.parse(r["src"]).body[0]
-        _nf_cache[key] = digest(nf(node, signatures()))
+        rel, q = key.split("::", 1)
+        helpers = {}
+        todo = [(n, 0) for n in _called_names(node)]
+        while todo:
+            name, depth = todo.pop()
+            if name == q.rsplit(".", 1)[-1] or name in helpers:
+                continue
+            d = reference_def(name, rel)
+            if d is not None and _small(d):
+                helpers[name] = d
+                if depth < 2:
+                    todo += [(n, depth + 1) for n in _called_names(d)]
+        _nf_cache[key] = digest(nf(node, signatures(), helpers=helpers, in_class="." in q))
     return _nf_cache[key]
 
 
@@ -330,6 +404,17 @@ def restore_refactored(tree: ast.Module, relpath: str) -> List[str]:
             elif cls is not None and hq.rsplit(".", 1)[0] == cls:
                 hn._is_method = True
                 helpers[hq.rsplit(".", 1)[1]] = hn
+        local_defs = _module_level_defs(tree)
+        todo = [(n, 0) for n in _called_names(node)] + [(n, 1) for h in list(helpers.values()) for n in _called_names(h)]
+        while todo:
+            name, depth = todo.pop()
+            if name in helpers or name == q.rsplit(".", 1)[-1]:
+                continue
+            d = local_defs.get(name) or current_def(name)
+            if d is not None and d is not node and _small(d):
+                helpers[name] = d
+                if depth < 2:
+                    todo += [(n, depth + 1) for n in _called_names(d)]
         try:
             cur = digest(nf(node, signatures(), helpers=helpers, in_class=cls is not None))
             if cur != _ref_nf(key, r):
@@ -346,6 +431,17 @@ def restore_refactored(tree: ast.Module, relpath: str) -> List[str]:
                 n.end_col_offset = 0
         if _replace_def(tree, node, new):
             done.append(f"{key}: same normal form as the reference function - analysed in the reference's shape")
+            have = _module_level_defs(tree)
+            for name in _called_names(new):
+                rk = f"{relpath}::{name}"
+                if name not in have and rk in ref and "src" in ref[rk]:
+                    d = ast.parse(ref[rk]["src"]).body[0]
+                    for n in ast.walk(d):
+                        n.lineno = getattr(node, "lineno", 1)
+                        n.end_lineno = n.lineno
+                        n.col_offset = n.end_col_offset = 0
+                    tree.body.append(d)
+                    done.append(f"{rk}: the reference helper the restored function calls is part of the analysed program again")
             used_helpers |= {h for h in helpers if any((isinstance(x, ast.Name) and x.id == h) or (isinstance(x, ast.Attribute) and x.attr == h) for x in ast.walk(node))}
     # helpers that only served restored functions are no longer part of the analysed program
     for hq, hn in new_helpers:
